@@ -57,6 +57,7 @@ def gen_scenario(ctx, k):
             t = C('MSG_NODE_LOST')
             announcer = parent
             sc.add(f'bus delnode {a[0]}.{a[1]}.{a[2]}')
+            present.pop(tuple(a), None)
         elif r < 0.9:
             # a configured board (absent, lost or re-login at a different address) or an unknown node logs on
             b = rng.choice(cfg['boards']) if rng.random() < 0.85 else None
@@ -66,15 +67,20 @@ def gen_scenario(ctx, k):
             newa = list(announcer)
             newa[dpt] = local
             newa = tuple(newa)
-            if any(m.addr.get(x['id']) == newa for x in cfg['boards']) or (b and m.addr.get(b['id']) == (0, 0, 0)):
-                continue
+            if newa in present or any(m.addr.get(x['id']) == newa for x in cfg['boards']) or (b and m.addr.get(b['id']) == (0, 0, 0)):
+                continue          # the address is taken (by a configured board or by an unknown node that logged on earlier)
             uid = b['uid'] if b else bytes([0x00, 0x02, 0x0D, 0xDD, 0xDD, i & 0xFF, 0x01])
             data = bytes([version, local]) + uid
             t = C('MSG_NODE_NEW')
             if b and m.connected(b['id']):
                 old = m.addr[b['id']]
                 sc.add(f'bus delnode {old[0]}.{old[1]}.{old[2]}')
+                present.pop(tuple(old), None)
+            for sa in [a_ for a_, u_ in present.items() if u_ == uid]:
+                sc.add(f'bus delnode {sa[0]}.{sa[1]}.{sa[2]}')      # a node left behind under an interface that was lost earlier
+                present.pop(sa)
             sc.add(f'bus node {newa[0]}.{newa[1]}.{newa[2]} {uid.hex()}')
+            present[newa] = uid
         else:
             # lost notice for an unknown unique id
             announcer = rng.choice(ann)
@@ -85,6 +91,42 @@ def gen_scenario(ctx, k):
         notices.append((announcer, version, t))
         sc.add(f'mark c{j}', up(model.build_msg(announcer, 0, t, data)), 'quiesce', f'snap n{j}')
         version = (version % 255) + 1
+    # the node table is read a second time in the same session (bidib_send_sys_reset) and the interface has handed out two addresses the
+    # other way round meanwhile: every board is found at its CURRENT address afterwards
+    hooks = {}
+    if rng.random() < 0.4:
+        conn = [b for b in cfg['boards'] if m.connected(b['id']) and m.addr[b['id']] != (0, 0, 0)]
+
+        def dep(a):
+            return 1 if a[1] == 0 else 2 if a[2] == 0 else 3
+
+        def has_kids(b):
+            a = m.addr[b['id']]
+            return any(o is not b and dep(m.addr[o['id']]) > dep(a) and m.addr[o['id']][:dep(a)] == a[:dep(a)] for o in conn)
+        leaves = [b for b in conn if not has_kids(b)]
+        pairs = [(x, y) for x in leaves for y in leaves if x['id'] < y['id'] and dep(m.addr[x['id']]) == dep(m.addr[y['id']])
+                 and m.addr[x['id']][:dep(m.addr[x['id']]) - 1] == m.addr[y['id']][:dep(m.addr[y['id']]) - 1]]
+        # only when the simulated bus and the model agree about the whole tree (scripted notices may leave nodes behind whose parent has gone:
+        # irrelevant for the notices themselves, but a second enumeration would not find them)
+        def reachable(a):
+            d_ = dep(a) if a != (0, 0, 0) else 0
+            return all(tuple(list(a[:i]) + [0] * (3 - i)) in present for i in range(0, d_))
+        by_uid = {b['uid']: b for b in cfg['boards']}
+        entries = [(by_uid[u]['id'], a) for a, u in present.items() if u in by_uid and reachable(a)]
+        bus_view = dict(entries) if len({e_[0] for e_ in entries}) == len(entries) else None      # one node per configured unique id
+        model_view = {b['id']: m.addr[b['id']] for b in cfg['boards'] if m.connected(b['id'])}
+        if bus_view != model_view:
+            pairs = []
+        if pairs:
+            x, y = rng.choice(pairs)
+            ax, ay = m.addr[x['id']], m.addr[y['id']]
+            sc.add(f'bus delnode {ax[0]}.{ax[1]}.{ax[2]}', f'bus delnode {ay[0]}.{ay[1]}.{ay[2]}', f'bus node {ax[0]}.{ax[1]}.{ax[2]} {y["uid"].hex()}',
+                   f'bus node {ay[0]}.{ay[1]}.{ay[2]} {x["uid"].hex()}', 'mark cx', 'reset', 'quiesce', 'flush', 'quiesce', 'mark swapped', 'snap r0')
+            m.addr[x['id']], m.addr[y['id']] = ay, ax
+
+            def hook(mm, xi=x['id'], yi=y['id'], ax=ax, ay=ay):
+                mm.addr[xi], mm.addr[yi] = ay, ax
+            hooks['swapped'] = hook
     # finally: a ping per board must go to its current address, or be refused when it is not connected
     pings = []
     for b in cfg['boards']:
@@ -92,9 +134,9 @@ def gen_scenario(ctx, k):
         pings.append((b['id'], m.addr.get(b['id'])))
         sc.add(f'mark c{j}', call('bidib_ping', S_(b['id']), 0x5A), 'flush', 'quiesce')
     sc.add('mark cend', 'stop')
-    return sc.text(), cfg, nodes, notices, pings, tabchange
+    return sc.text(), cfg, nodes, notices, pings, tabchange, hooks
 
-def evaluate(ctx, r, cfg, nodes, notices, pings, tabchange, meta):
+def evaluate(ctx, r, cfg, nodes, notices, pings, tabchange, meta, hooks=None):
     if ctx.generic_failures(r, meta):
         return
     if runner.outcome(r) != 'ok':
@@ -116,10 +158,12 @@ def evaluate(ctx, r, cfg, nodes, notices, pings, tabchange, meta):
                 if not bad:
                     bad.append((e.get('tag'), b['id'], exp, g))
         ctx.count('connectivity_snapshots')
-    fold.fold(m, r.events, begin, None, on_snap)
+    fold.fold(m, r.events, begin, hooks, on_snap)
+    if hooks:
+        ctx.count('address_swaps_before_reset')
     if bad:
         tag, bid, exp, g = bad[0]
-        cls = 'startup-table' if tag == 's0' else 'after-notice'
+        cls = 'startup-table' if tag == 's0' else 'after-reset' if tag == 'r0' else 'after-notice'
         ctx.violation(cls, 'connectivity', f'snapshot {tag}: board {bid} reported (connected, address) = {g}, the node tree says {exp}', r.scenario, r.flavour, meta)
         return
     if tabchange is not None:
@@ -160,13 +204,13 @@ def evaluate(ctx, r, cfg, nodes, notices, pings, tabchange, meta):
 def run(ctx):
     ctx.rule = ('generated trees (1-6 configured boards, ~half interfaces, nested up to three levels, 0-2 unknown nodes, ~25% of boards absent), optional node-table '
                 'change after the k-th row, then 0-30 node-lost / node-new notices (loss of interfaces with children, re-login at a different address, unknown '
-                'ids); connectivity getters after start and after every notice, ack per notice, ping per board at the end. non-trivial = distinct scenario '
+                'ids); connectivity getters after start and after every notice, ack per notice, in 40 % of the runs two boards swap their addresses and the table is read again (bidib_send_sys_reset), ping per board at the end. non-trivial = distinct scenario '
                 'with >=1 notice or a tree of depth >= 2')
     ctx.assumptions = ['announcers have address depth <= 2', 'simulated bus node table is updated alongside the scripted notices so that later requests are answered']
     jobs = [gen_scenario(ctx, k) for k in range(ctx.n(200, 8000))]
     res = runner.run_many('asan', [(i, j[0]) for i, j in enumerate(jobs)], timeout=600)
     for j, r in zip(jobs, res):
         meta = {'digest': hashlib.sha1(j[0].encode()).hexdigest()[:12], 'nodes': [(list(a), u.hex()) for a, u in j[2]], 'tabchange': j[5]}
-        evaluate(ctx, r, j[1], j[2], j[3], j[4], j[5], meta)
+        evaluate(ctx, r, j[1], j[2], j[3], j[4], j[5], meta, j[6] if len(j) > 6 else None)
     ctx.sample({'tree': [(list(a), u.hex()) for a, u in jobs[0][2]], 'notices': [(list(a), v, hex(t)) for a, v, t in jobs[0][3][:6]]})
     return ctx.finish(min_eval=50, min_nontrivial=20)
